@@ -51,6 +51,12 @@ CLAIMED = {
  "C16": dict(technique="TLA+ printer + lexer + grammar: round trip model-checked by TLC on the spec; every tree printed and re-parsed by reval; the printed texts validated by TLC as a trace against the spec's lexer and grammar",
    text="TLC enumerates the trees of the parser's image (every kind in every child position of every other kind, literal leaves from the literal families) and checks on the specification that printing then parsing is the identity; the harness prints every tree with the code's Display, parses the text back with the code and compares; the recorded (tree, text) pairs are then validated by TLC: the specification's lexer and grammar must read each printed text as exactly that tree (so grouping, operators, literal values and string contents are all pinned).",
    ref="6 C16", note="Trusted: Lexer.tla / Grammar.tla as the reading of valid rule syntax. 'Evaluates identically' follows from tree equality and determinism (C12)."),
+ "C13": dict(technique="TLA+ model of the serde data model (Ser.tla: terms, Image, Bad) checked by TLC; every term interpreted against reval's ValueSerializer, RuleSet::evaluate and serde_json",
+   text="TLC enumerates terms of the serde data model (all kinds, integer widths at their limits incl. u128 above i128::MAX, non-finite floats, nested/empty containers, maps with every kind of key, the four variant shapes, failing Serialize impls) and checks Image against an independent statement of when serialization must fail, exactness of integers and option collapse; a term interpreter in the harness calls exactly the corresponding Serializer methods; results of serialize(ValueSerializer), of RuleSet::evaluate(&term) (whole-call failure iff the input cannot be serialized, same outcome as the image otherwise) and of serde_json::to_value are compared under catch_unwind.",
+   ref="6 C13", note="Trusted: Ser.tla (only string keys are supported map keys, as the serializer documents); serde_json as the reference image for JSON-representable data."),
+ "C17": dict(technique="TLA+ conversion table (Convert.tla: ranges, kinds, first-failure rule) checked by TLC; every (target, source) replayed through TryFrom<Value> and From<T>",
+   text="TLC enumerates every target type x source value (all boundaries +-1 of all ten integer widths, whole range of the 8/16-bit targets, every Value variant) and container targets with a non-convertible element at each position, checking range-exactness and kind-exactness on the spec; the harness extracts with TryFrom<Value>, injects back with From<T>, and compares outcome class, error payload and the representation of the round-tripped value.",
+   ref="6 C17", note="Trusted: Convert.tla. f32 / usize have only the From direction in the crate; Vec<Value> has no TryFrom (noted in the harness)."),
 }
 NA = {
  "C19": "stack exhaustion is a resource limit of the host (frame size x thread stack), not a property of an abstract transition system; a TLA+ model can only restate 'depth is unbounded' (DESIGN section 7)",
